@@ -154,6 +154,28 @@ pub open spec fn entry_reloaded(v: serde_json::Value, m: Map<Vec<u8>, Vec<User>>
 pub open spec fn prefix_reloaded(arr: Seq<serde_json::Value>, n: int, m: Map<Vec<u8>, Vec<User>>) -> bool {
     forall|i: int| 0 <= i < n ==> #[trigger] entry_reloaded(arr[i], m)
 }
+/// what the reload decodes from one element of the stored rights array: date, entity and flags of the stored right, normalised
+pub open spec fn reloaded_right(v: serde_json::Value, e: EntityRight) -> bool {
+    let m = v.s_obj()->Some_0;
+    Some(er_valid_from(e)) == m.s_get("mdate"@)->Some_0.s_i64() && Some(er_entity(e)@) == m.s_get("entity"@)->Some_0.s_str()
+    && Some(er_all(e)) == m.s_get("mutate_all"@)->Some_0.s_bool()
+    && m.s_get("mutate_self"@)->Some_0.s_bool() is Some && er_self(e) == (m.s_get("mutate_self"@)->Some_0.s_bool()->Some_0 || er_all(e))
+}
+pub open spec fn right_reloaded(v: serde_json::Value, m: Map<String, Vec<EntityRight>>) -> bool { exists|e: EntityRight| reloaded_right(v, e) && listed_right(m, e) }
+pub open spec fn prefix_rights_reloaded(arr: Seq<serde_json::Value>, n: int, m: Map<String, Vec<EntityRight>>) -> bool { forall|i: int| 0 <= i < n ==> #[trigger] right_reloaded(arr[i], m) }
+broadcast proof fn lemma_prefix_rights_reloaded_step(arr: Seq<serde_json::Value>, n: int, old_m: Map<String, Vec<EntityRight>>, new_m: Map<String, Vec<EntityRight>>, right: EntityRight)
+    requires #[trigger] rights_appended(old_m, new_m, right), #[trigger] prefix_rights_reloaded(arr, n, old_m), reloaded_right(arr[n], right),
+    ensures prefix_rights_reloaded(arr, n + 1, new_m),
+{
+    lemma_rights_append_lists(old_m, new_m, right);
+    assert forall|i: int| 0 <= i < n + 1 implies #[trigger] right_reloaded(arr[i], new_m) by {
+        if i < n {
+            assert(right_reloaded(arr[i], old_m));
+            let e = choose|e: EntityRight| reloaded_right(arr[i], e) && listed_right(old_m, e);
+            assert(listed_right(new_m, e));
+        }
+    }
+}
 /// no anchor in the loop bodies: this lemma fires on the loop invariant and on the postconditions of load_user_from_json and of the add_* mutators
 broadcast proof fn lemma_prefix_reloaded_step(arr: Seq<serde_json::Value>, n: int, old_m: Map<Vec<u8>, Vec<User>>, new_m: Map<Vec<u8>, Vec<User>>, user: User)
     requires #[trigger] users_appended(old_m, new_m, user), #[trigger] prefix_reloaded(arr, n, old_m), reloaded_user(arr[n], user),
@@ -278,12 +300,7 @@ pub closed spec fn auth_shape(v: serde_json::Value) -> bool {
 //@ result r
 //@ attr #[verifier::loop_isolation(false)]
 //@ insert body-start
-    broadcast use {lemma_users_append_wf, lemma_rights_append_wf, lemma_users_append_lists, lemma_rights_append_lists, lemma_prefix_reloaded_step};   // the representation invariant follows every add_* call, whatever the code around the call looks like
-//@ insert before-stmt "authorisation.add_right("
-            let ghost auth_before = authorisation;
-//@ insert after-stmt "authorisation.add_right("
-            // [reloaded_right_entry_accepted_or_reload_refused]{C10}
-            assert(exists|e: EntityRight| #[trigger] rights_appended(auth_before.rights@, authorisation.rights@, e));
+    broadcast use {lemma_users_append_wf, lemma_rights_append_wf, lemma_users_append_lists, lemma_rights_append_lists, lemma_prefix_reloaded_step, lemma_prefix_rights_reloaded_step};   // the representation invariant follows every add_* call, whatever the code around the call looks like
 //@ insert before-stmt "let user_admin_array"
     let ghost users1 = authorisation.users;
     let ghost m0 = value.s_obj()->Some_0;
@@ -310,6 +327,9 @@ pub closed spec fn auth_shape(v: serde_json::Value) -> bool {
 //@ loop "for right_value in right_array" iter it
             invariant auth_wf(authorisation), authorisation.id == id,
                 all_right_shape(right_array@), authorisation.users == users1, authorisation.user_admins == admins2,
+                it.seq().len() == right_array@.len(), forall|i: int| 0 <= i < it.seq().len() ==> *(#[trigger] it.seq()[i]) == right_array@[i],
+                // [every_stored_right_entry_is_reloaded]{C10}
+                prefix_rights_reloaded(right_array@, it.index@ as int, authorisation.rights@),
 //@ spec
         requires auth_shape(*value),
         ensures
@@ -322,6 +342,8 @@ pub closed spec fn auth_shape(v: serde_json::Value) -> bool {
                     #[trigger] entry_reloaded(m.s_get(AUTH_USER_FIELD@)->Some_0.s_arr()->Some_0[i], r->Ok_0.users@))
                 && (m.s_get(AUTH_USER_ADMIN_FIELD@)->Some_0.s_arr() is Some ==> forall|i: int| 0 <= i < m.s_get(AUTH_USER_ADMIN_FIELD@)->Some_0.s_arr()->Some_0.len() ==>
                     #[trigger] entry_reloaded(m.s_get(AUTH_USER_ADMIN_FIELD@)->Some_0.s_arr()->Some_0[i], r->Ok_0.user_admins@))
+                && (m.s_get(AUTH_RIGHTS_FIELD@)->Some_0.s_arr() is Some ==> forall|i: int| 0 <= i < m.s_get(AUTH_RIGHTS_FIELD@)->Some_0.s_arr()->Some_0.len() ==>
+                    #[trigger] right_reloaded(m.s_get(AUTH_RIGHTS_FIELD@)->Some_0.s_arr()->Some_0[i], r->Ok_0.rights@))
             }),
 //@ end
 
